@@ -1,6 +1,7 @@
 """Per-property configuration: which units (Verus templates, lemma files, Kani harness groups)
 generate the obligations that decide each property."""
 import verus_track as vt
+import kani_track as kt
 
 IO = vt.VerusUnit('io', 'io.rs')
 
@@ -11,6 +12,18 @@ def verus(unit, modules):
     f.__name__ = 'verus:%s' % unit.name
     return f
 
+
+def kani(groups):
+    def f(prop, tier, res):
+        return kt.evaluate(groups, prop, tier, res)
+    f.__name__ = 'kani:%s' % '+'.join(groups)
+    return f
+
+
+KANI_ASSUME = [
+    'Kani 0.68 / CBMC 6.11 / CaDiCaL+kissat are sound; Kani compiles with panic=abort (unwinding is never executed)',
+    'harness weaving K1-K4 (DESIGN 2.2) does not change the code under test',
+]
 
 STD_ASSUME = [
     'Verus 0.2026.09.13 / Z3 are sound; the extraction rules X1-X8 (DESIGN 2.1) preserve meaning',
@@ -28,6 +41,10 @@ PROPS = {
     'C07': dict(level='proof', units=lambda tier: [verus(IO, ['frame', 'spec', 'model'])],
                 explanation='Unbounded deductive proof (Verus) of the error-exit postconditions of write/flush: an Err result is the socket error, leaves pending and wire unchanged.',
                 assumptions=STD_ASSUME + [BUFWRITER]),
+    'C02': dict(level='other', engine='kani', units=lambda tier: [kani(['client_conv'])],
+                technique='contract-based verification: Hoare triples on the real To*Value::try_to_value impls, discharged by Kani/CBMC over full input domains (Vec<Duration> lists bounded)',
+                explanation='Kani contracts on the 22 real conversion impls in cadence/src/client.rs: scalar integers and floats over the whole type range (loop-free => complete), packed u64/f64 lists by buffer identity for every (len, capacity), Duration->ms/ns over all (secs, nanos) against 128-bit reference arithmetic (complete). Vec<Duration> impls are BOUNDED (list length 1..2 quick, 1..3 thorough) and listed under bounded_checks. The decimal rendering of the numbers (std Display) is trusted, not verified; rendering order of packed lists is the Verus obligation of C01 (write_value).',
+                assumptions=KANI_ASSUME + ['std integer/float Display produce the canonical numeral that parses back to the identical value (std contract, not verified)']),
     'C19': dict(level='proof', units=lambda tier: [verus(IO, ['greedy', 'spec', 'model'])],
                 explanation='Unbounded deductive proof (Verus) of the socket-activity postconditions (attempt counter of the socket model) under the exact-accounting invariant.',
                 assumptions=STD_ASSUME + [BUFWRITER]),
